@@ -19,29 +19,38 @@ def prop(pid, **kw):
 
 # per property: harness-name prefix(es), bounds text, what is outside the claim
 prop('C12', prefix=['c12'],
-     bounds='row/column/position/count any i32 inside the grid; one reference at a time; sheet indices any u32',
-     outside='cell content/value type/style moving through move_cell (text re-entry), defined names, spills, recomputed values, '
+     bounds='references: row/column/position/count any i32 inside the grid, sheet indices any u32; ranges: corners, context, position, count in '
+            'rows 1..=120 x columns 1..=30 (whole grid in the thorough tier), whole-column/whole-row ranges at the real grid limits; '
+            'Model::insert_*: <=2 column descriptors or row records (widths/heights fixed to 8/13/21/34), 1 hyperlink, any in-grid position and count',
+     outside='cell content/value type/style moving through move_cell (text re-entry), CSE arrays, defined names, spills, recomputed values, '
              'the parser that produced the reference node')
 prop('C13', prefix=['c13'],
-     bounds='row/column/position/count any i32 inside the grid; one reference at a time',
-     outside='cell content moving, recomputed values, the parser')
+     bounds='as C12 for deletion',
+     outside='cell content moving (move_cell re-entry), recomputed values, defined names, the parser')
 prop('C14', prefix=['c14'],
-     bounds='position and count any i32 inside the grid; one reference / one CF coordinate at a time',
-     outside='cell content, formula text as a whole, computed values, column descriptors (see C29)')
+     bounds='position and count any i32 inside the grid; one CF coordinate; Model insert;delete on <=2 descriptors/records + 1 link',
+     outside='cell content, value types, formula text as a whole, computed values')
 prop('C15', prefix=['c15'],
-     bounds='single-line move, any offset inside the grid; block move = chain of <=2 (quick) / <=3 (thorough) single moves',
-     outside='cell content re-entry, array-formula split checks, values, ranges')
+     bounds='single-line move of a reference: any offset inside the grid; CF chain block <=2 (quick) / <=3 (thorough); Model::move_rows_action '
+            'block <=3, |offset| <=2, <=1 row record, 1 link (thorough: <=2 records, |offset| <=3); move_columns_action block <=2, |offset| <=2, '
+            '<=1 descriptor, 1 link (thorough: <=2 descriptors, block <=3, |offset| <=3)',
+     outside='cell content re-entry, array-formula split checks, values, ranges under moves')
 prop('C22', prefix=['c22'],
      bounds='all 16384 column numbers (one symbolic i32); every ASCII column string of length 0..=4',
      outside='A1/R1C1 printing+parsing of whole references, sheet-name quoting vs the lexer, non-ASCII text')
+prop('C27', prefix=['c27'],
+     bounds='<=2 column descriptors / <=2 row records (in-grid, well-formed pre-state), one Model-level structural edit '
+            '(insert/delete any position and count; move block <=2, offset <=2) on a cell-free sheet',
+     outside='sheet names/ids, cells inside the grid, style/shared-string/formula indices, spill anchors, defined names; '
+             'the Worksheet setters are checked for the same invariant under C29 (check ids C27.*)')
 prop('C29', prefix=['c29'],
-     bounds='<=2 column descriptors (quick) / <=3 (thorough), <=2 row records; one setter call from an arbitrary well-formed state; '
-            'widths/heights any finite f64 in 0..=1e6',
+     bounds='<=2 column descriptors, <=2 row records; one setter call from an arbitrary well-formed state; '
+            'widths/heights any finite f64 in 0..=1e6 where only carried, 8/13/21/34 where the setter converts units',
      outside='Model-level wrappers (sheet lookup), sequences (covered inductively by the arbitrary pre-state)')
 prop('C33', prefix=['c33'],
-     bounds='row/column/position/count/offset any i32 inside the grid, sheet ids any u32',
-     outside='links (displace_links closures inside Model::insert_*/delete_*/move_*), CF rule formulas (parser), sqref strings, '
-             'clear-removes-link and its undo, cut/paste orchestration')
+     bounds='CF coordinates: row/column/position/count/offset any i32 inside the grid, sheet ids any u32; links: 2 links at any distinct in-grid '
+            'cells, insert/delete any position and count, block move <=2 by |offset| <=2',
+     outside='CF rule formulas (parser), sqref strings, clear-removes-link and its undo, cut/paste orchestration')
 
 
 def log(*a):
@@ -231,7 +240,8 @@ def conclude(pid, tier, seed, b, names, res, t0, cfg):
                     validated += 1
                 else:
                     mismatch.append({'harness': n, 'inputs': p['inputs'], 'engine': want, 'engine_status': st,
-                                     'native': lines, 'native_status': status})
+                                     'native': lines, 'native_status': status, 'stats': p.get('stats'),
+                                     'decisions': p.get('decisions'), 'ndec': p.get('ndec')})
     if mismatch:
         incon.append('engine/native disagreement on %d of %d validated paths, first: %s' %
                      (len(mismatch), len(validate), json.dumps(mismatch[0])[:1500]))
